@@ -11,7 +11,7 @@ macro_rules! viol {
     };
 }
 
-fn instrumented(rk: &RK) -> bool {
+pub fn instrumented(rk: &RK) -> bool {
     match rk {
         RK::Map { .. }
         | RK::MapP { .. }
@@ -105,6 +105,7 @@ impl Model {
             held: c.held,
             engine_id: c.engine_id,
             cutoff: CutoffSpec::Default,
+            cutoff_set: false,
             value: None,
             last_run: None,
             last_changed: None,
@@ -245,6 +246,7 @@ impl Model {
             Act::OnUpdate { hid, .. } => self.nodes[*hid].node_handlers += 1,
             Act::SetCutoff { hid, c } => {
                 self.nodes[*hid].cutoff = *c;
+                self.nodes[*hid].cutoff_set = true;
                 if !c.only_suppresses_equal() {
                     self.any_noneq_cutoff = true;
                 }
@@ -447,7 +449,7 @@ impl Model {
     }
 
     fn cached_i(&self, h: Hid) -> Option<i64> {
-        self.nodes[h].value.map(|v| v.i())
+        self.val(h).map(|v| v.i())
     }
 
     fn complete_uninstrumented(&mut self, at: usize, h: Hid) {
@@ -462,13 +464,13 @@ impl Model {
                 (Some(x), Some(y)) => Some(MV::P(x, y)),
                 _ => None,
             },
-            RK::MapRef { src, proj } => match self.nodes[*src].value {
+            RK::MapRef { src, proj } => match self.val(*src) {
                 Some(MV::P(a, b)) => Some(MV::I(if *proj == 0 { a } else { b })),
                 _ => None,
             },
-            RK::DependOn { a, .. } => self.nodes[*a].value,
+            RK::DependOn { a, .. } => self.val(*a),
             RK::Bind { .. } => match n.rhs {
-                Some(r) if !self.nodes[r].invalid => self.nodes[r].value,
+                Some(r) if !self.nodes[r].invalid => self.val(r),
                 Some(_) => {
                     // right-hand side invalid: the bind's result becomes invalid too
                     self.nodes[h].awaiting_invoke = false;
@@ -495,7 +497,8 @@ impl Model {
         let changed = match (&self.nodes[h].rk, old) {
             (_, None) => true,
             (RK::MapWithOld { .. }, Some(o)) => o != new,
-            (RK::DependOn { a, .. }, Some(_)) => self.nodes[*a].last_changed != self.nodes[h].last_changed,
+            // depend_on installs a cutoff comparing the two nodes' change stamps (until replaced)
+            (RK::DependOn { a, .. }, Some(_)) if !self.nodes[h].cutoff_set => self.nodes[*a].last_changed != self.nodes[h].last_changed,
             (RK::MapRef { src, .. }, Some(o)) => {
                 let s = &self.nodes[*src];
                 // exact only when the input changed in this round while this node was linked
@@ -527,7 +530,7 @@ impl Model {
     }
 
     fn expected_args(&self, h: Hid) -> Vec<(Hid, Option<MV>)> {
-        let v = |x: Hid| (x, self.nodes[x].value);
+        let v = |x: Hid| (x, self.val(x));
         match &self.nodes[h].rk {
             RK::Map { src, .. } | RK::MapP { src, .. } | RK::MapIP { src } | RK::MapWithOld { src, .. } | RK::BMap { src, .. } | RK::Memo { src, .. } => vec![v(*src)],
             RK::MapN { srcs, .. } => srcs.iter().map(|s| v(*s)).collect(),
